@@ -101,7 +101,7 @@ func TestVerifC12FourQFp(t *testing.T) {
 					case "Mul":
 						w.Mul(xm, ym)
 					}
-					if !inDomain(&z) || !c.Expect("residue", res(&z), w.Mod(w, p)) {
+					if !c.Expect("residue", res(&z), w.Mod(w, p)) || !inDomain(&z) {
 						return
 					}
 				case "Sqr", "Hlf":
@@ -113,7 +113,7 @@ func TestVerifC12FourQFp(t *testing.T) {
 						w.Mul(xm, new(big.Int).ModInverse(big.NewInt(2), p))
 					}
 					z, _ := kit.Un(alias, fn, x0, junk)
-					if !inDomain(&z) || !c.Expect("residue", res(&z), w.Mod(w, p)) {
+					if !c.Expect("residue", res(&z), w.Mod(w, p)) || !inDomain(&z) {
 						return
 					}
 				case "Mod":
@@ -142,7 +142,7 @@ func TestVerifC12FourQFp(t *testing.T) {
 							}
 						}
 						z, _ := kit.Un(alias, fn, x0, junk)
-						if w != nil && (!inDomain(&z) || !c.Expect("residue", res(&z), w.Mod(w, p))) {
+						if w != nil && (!c.Expect("residue", res(&z), w.Mod(w, p)) || !inDomain(&z)) {
 							return
 						}
 					case "isZero":
@@ -247,12 +247,16 @@ func TestVerifC12FourQFq(t *testing.T) {
 				c := &kit.Case{T: t, Type: "fourq.Fq", Op: op, Backend: be.name, Alias: alias,
 					Vals: []*big.Int{x0v, x1v, y0v, y1v}, Classes: []string{xc0, xc1, yc0, yc1}}
 				check := func(z *Fq, w0, w1 *big.Int) bool {
+					if !c.Expect("residue-re", kit.Mod(c12FpTo(&z[0]), p), kit.Mod(w0, p)) ||
+						!c.Expect("residue-im", kit.Mod(c12FpTo(&z[1]), p), kit.Mod(w1, p)) {
+						return false
+					}
+					// right residue, but the package's representation invariant is 0 ≤ value ≤ p (127 bits)
 					if z[0][SizeFp-1]>>7 != 0 || z[1][SizeFp-1]>>7 != 0 {
 						c.Fail("out-of-domain", fmt.Sprintf("result %x,%x has bit 127 set", c12FpTo(&z[0]), c12FpTo(&z[1])))
 						return false
 					}
-					return c.Expect("residue-re", kit.Mod(c12FpTo(&z[0]), p), kit.Mod(w0, p)) &&
-						c.Expect("residue-im", kit.Mod(c12FpTo(&z[1]), p), kit.Mod(w1, p))
+					return true
 				}
 				switch op {
 				case "Add", "Sub", "Mul":
